@@ -15,6 +15,9 @@ func VerifB22cSendAfterClose() {
 	vt.Assert(a.Send(1), "Send on an open accumulator failed")
 	a.Close()
 	var late [3]bool
+	// every atomic operation is a scheduling point here, so that windows between two atomic steps that carry
+	// no verifhook point are explored as well
+	vt.ImplicitPoints(true)
 	vt.Threads(budget,
 		func() { late[0] = a.Send(20) },
 		func() { late[1] = a.Send(21) },
